@@ -281,7 +281,7 @@ def run_sub(snippet, hashseed):
     raise RuntimeError("sub-process failed: " + p.stderr[-400:])
 
 
-def solve_case(ctx, rng, subprocess_seeds, optimizer=None):
+def solve_case(ctx, rng, subprocess_seeds, optimizer=None, seed=None):
     nq = rng.choice([2, 2, 3])
     paulis = sorted({"".join(rng.choice("IXYZ") for _ in range(nq)) for _ in range(rng.randint(1, 3))})
     cfg = {"paulis": paulis, "coeffs": [rng.randint(-4, 4) / 2 or 1.0 for _ in paulis], "estimator": rng.random() < 0.6, "maxiter": rng.randint(2, 4), "max_gen": rng.randint(2, 3),
@@ -290,6 +290,8 @@ def solve_case(ctx, rng, subprocess_seeds, optimizer=None):
            "optimizer": rng.choice(["COBYLA", "SPSA"])}  # SPSA draws from qiskit's process-global generator, which the library seeds per task
     if optimizer:
         cfg["optimizer"] = optimizer
+    if seed is not None:
+        cfg["seed"] = seed  # boundary values of the seed (0 is falsy in Python; the sample configuration of the package uses 0)
     if cfg["mutex"]:
         cfg["maxiter"], cfg["max_gen"], cfg["population"] = 2, 2, 3  # the batching wrapper waits 0.1 s per (sequential) evaluation
     if not cfg["estimator"]:
@@ -487,7 +489,8 @@ def run(ctx):
     for i in range(ctx.n(3, 40)):
         if ctx.out_of_time():
             break
-        solve_case(ctx, rng, hs if (i == 0 or ctx.thorough() and i % 4 == 0) else [], optimizer=["SPSA", "COBYLA"][i % 2])
+        solve_case(ctx, rng, hs if (i == 0 or ctx.thorough() and i % 4 == 0) else [], optimizer=["SPSA", "COBYLA"][i % 2],
+                   seed={0: 0, 5: 1, 9: 2**31 - 1}.get(i))
 
 
 def replay(ctx, case):
